@@ -266,7 +266,9 @@ def check(case):
             # a reified shape carries the effective width; an unreified one (reify=False, or a shape that refuses to
             # reify) keeps the base width and reports the effective one through implicit_stroke_width
             ident = max(abs(float(m.a) - 1), abs(float(m.b)), abs(float(m.c)), abs(float(m.d) - 1), abs(float(m.e)), abs(float(m.f))) <= 1e-9
-            have_w = e.stroke_width if ident else e.implicit_stroke_width
+            # (with reify=False a transform that happens to be the identity - viewport scale 1/2 under scale(2) - is
+            # not a reified shape)
+            have_w = e.stroke_width if (ident and reify) else e.implicit_stroke_width
         else:
             have_w = e.stroke_width * math.sqrt(det_e)
         want_w = exp["width"] * math.sqrt(det_w)
